@@ -182,6 +182,12 @@ func (sc c16Scenario) body(c *explore.Ctx) {
 	}
 	outcome = append(outcome, fmt.Sprintf("sessions=%d", len(distinctSessions)))
 	if !factoryClosed {
+		// the cache never holds more sessions than it was configured for (the holders keep evicted ones alive, the cache does not)
+		if n := ae.VerifSessionCacheCount(f); n > sc.cap {
+			c.Failf("session-cache-over-capacity", "the session cache holds %d sessions, its configured capacity is %d", n, sc.cap)
+		}
+	}
+	if !factoryClosed {
 		for _, s := range w.TF.Secrets[preSecrets:] {
 			if !s.Closed && !reach[s] {
 				c.Failf("evicted-session-not-torn-down", "secret#%d belongs to a session that left the cache and was closed by its last holder, but it was never released (blocked threads: %v)", s.ID, vsched.Blocked())
